@@ -695,4 +695,16 @@ theorem no_pipes_no_blocked_send (f : Proto.Rep.Flavor) (site : HopSite) (s : Pr
     rw [hp] at hp1
     cases hp1
 
+/-- non-vacuity: a raw REP socket with a reply blocked on its connected pipe 7 meets the invariant; dropping the pipe
+    releases exactly that Send -/
+example :
+    let s : Proto.Rep.State := { (Proto.Rep.init .xrep ⟨1, .gt (.var "hops") (.var "ttl"), []⟩) with
+      pipes := [{ id := 7, cap := 1 }], parkedSend := [{ call := 1, ctx := 0, pipe := 7, msg := ([], [1]), orig := [] }] }
+    Proto.Rep.M s ∧ (Proto.Rep.dropPipe s 7).1.parkedSend = [] ∧ (Proto.Rep.dropPipe s 7).2.map (·.1) = [1] := by
+  refine ⟨?_, by decide, by decide⟩
+  intro x hx
+  simp at hx
+  subst hx
+  exact ⟨{ id := 7, cap := 1 }, by simp, rfl⟩
+
 end Props.C10
